@@ -1782,6 +1782,10 @@ pub fn run_fault_one(ctx: &mut Ctx, scn: &StoreScn) {
                 // h is dropped below before opening
                 outcome = Ok(());
             }
+            Op::Pass(ms) => {
+                desc = format!("op#{} (idle {} ms; background tasks run)", i, ms);
+                ctx.sim.sleep_thread(ctx.me, ms * 1_000_000);
+            }
             _ => {
                 desc = format!("op#{} (no-op)", i);
             }
@@ -1810,7 +1814,15 @@ pub fn run_fault_one(ctx: &mut Ctx, scn: &StoreScn) {
             }
         }
         let faulted_here = errors_seen(ctx.sim) > e0;
+        // a failed call made by the store's background thread (timer-driven merge or sync) is not
+        // made on behalf of a client operation: it is logged, and the store must stay consistent
+        let me = ctx.me;
+        let background_fault = faulted_here && fsim::with_fs(ctx.sim, |fs| fs.log.iter().any(|r| r.injected && r.res < 0 && !r.what.ends_with("eintr") && r.tid != me));
         match (&outcome, faulted_here) {
+            (Ok(()), true) if background_fault => {
+                fault_op = Some(format!("a background task during {}", desc));
+                ctx.sim.probe("fault_in_background_task");
+            }
             (Ok(()), true) => {
                 ctx.viol("fault-swallowed", format!("fault #{} (errno {}) hit a file-system call made by {}, which nevertheless returned Ok", nth, errno, desc), "");
             }
